@@ -266,7 +266,9 @@ CHECKS["C20"] = {
              "WithInitialConsumable/WithInitialStock land where they say; Convert round-trips), fan speed (random preset tables; preset/index/percentage updates masked, nil-mask full and nil-mask "
              "partial, relative RPC updates; table consistency after every success), mode (random mode tables; initial = first given value; relative steps wrap both ways), enter/leave (the three "
              "documented total rules, reset, Pull seed == Get), meter (start<=end, end=now after record, start kept, reset => 0 and start=end=now), publication (version is a function of content, "
-             "publish time on change, receipt reset, stale version => FailedPrecondition and unchanged, acknowledge protocol incl. allow_acknowledged); no operation may panic. "
+             "publish time on change, receipt reset, stale version => FailedPrecondition and unchanged, acknowledge protocol incl. allow_acknowledged); explicit configuration of every option-bearing model "
+             "(initial value of nine single-value models; initial children / publications / bookings / electric modes handed over in any order and over several uses of the option; light presets; "
+             "open/close presets and initial positions) is reported back unchanged and used (selecting a preset applies its configured level / positions); no operation may panic. "
              "non-trivial per model: parent - removal of an absent name sorting before a present one; vending - remaining without used or differing units; fan speed - a partial nil-mask/relative update; "
              "mode - a wrapping step or several modes; publication - at least one acknowledge; distinct by configuration + operation sequence"),
     "assumptions": ["vending arithmetic is compared with 1e-4 relative tolerance (float32 storage)", "the unimplemented ReverseFanSpeedDirection RPC is not one of the operations"],
@@ -274,6 +276,7 @@ CHECKS["C20"] = {
         rapid_job("parent-vending", "./verifh/c20", "TestParentTraits|TestVendingDispense|TestVendingConfigAndUnits", 10000, 40000),
         rapid_job("fan-mode", "./verifh/c20", "TestFanSpeedConsistency|TestModeRelativeSteps", 10000, 40000),
         rapid_job("el-meter-pub", "./verifh/c20", "TestEnterLeaveTotals|TestMeterTimes|TestPublicationVersions", 10000, 40000),
+        rapid_job("configuration", "./verifh/c20", "TestExplicitConfiguration", 6000, 30000),
     ],
 }
 
